@@ -2,7 +2,7 @@
 from facts import AnalysisBroken
 from model import (norm_cond, dstr, strip, fact_holds, mentions_field, mentions_call, mentions_var,
                    const_value, walk)
-from rules import (lastname, guarded, calls_to, who_may_call, dominated_by, full_range, loops_over,
+from rules import (deep_resolve, lastname, guarded, calls_to, who_may_call, dominated_by, full_range, loops_over,
                    every_iteration_passes, basename, origins, skip_conditions_exact,
                    reached_only_via)
 
@@ -102,7 +102,9 @@ def run(ctx):
         facts = rm.facts_at(e)
         ok = fact_holds(facts, lambda a: mentions_call(a, 'Cleaner::FileExists') or
                         mentions_call(a, 'DiskInterface::Stat'), True) or \
-            fact_holds(facts, lambda a: 'ret' in dstr(a) and '== 0' in dstr(a), True)
+            fact_holds(facts, lambda a: isinstance(strip(a), dict) and strip(a).get('k') == 'bin' and strip(a).get('op') == '==' and
+                       const_value(strip(a).get('r')) == 0 and any(mentions_call(x_, n_) for x_ in (strip(a).get('l'), deep_resolve(rm, strip(a).get('l')))
+                                                        for n_ in ('Cleaner::RemoveFile', 'DiskInterface::RemoveFile')), True)
         ctx.check('C18.W1', ok, rm.name, 'Remove:report-unconditional', rm.where(e),
                   'a file is reported only if it exists (dry run) or was removed (ret == 0)')
     # ... and "all of it": a path given to Remove is acted on (removed, or listed in a dry run) unless this very path
